@@ -15,6 +15,7 @@ from . import common
 from . import c13_ram as RAM
 from . import c13_req as REQ
 from . import c13_wsgi as WSGI
+from . import c13_file as FILE
 
 PROPERTY = 'C13'
 LEAN_TARGETS = ['CpProofs.C13', 'drv_c13']
@@ -31,6 +32,12 @@ THEOREMS = [
     'CpProofs.C13.C13_no_release_error',
     'CpProofs.C13.C13_released_ram',
     'CpProofs.C13.C13_no_deadlock',
+    # (b) FileSession relative to the FileLock contract (threads and processes)
+    'CpProofs.C13.C13_file_mutex',
+    # (c) request level: every outcome x locking mode x any user hooks
+    'CpProofs.C13.C13_released_at_end',
+    'CpProofs.C13.close_runHooks',
+    'CpProofs.C13.sortByPrio_perm',
 ]
 LEVEL = 'proof'
 TECHNIQUE = ('Lean 4 proof: inductive invariants over the step relation of an interleaving model (any number of '
@@ -413,6 +420,25 @@ def wsgi_systematic(n_preempt_points=14):
 
 
 # ------------------------------------------------------------------------------------------------
+# (b) file backend across processes (real filelock)
+# ------------------------------------------------------------------------------------------------
+def check_file_processes(ctx, procs, incs, sweeps):
+    case = {'kind': 'fileproc', 'procs': procs, 'incs': incs, 'sweeps': sweeps}
+    r = FILE.run_processes(procs, incs, sweeps)
+    ctx.case(case, nontrivial=True, key=json.dumps(case, sort_keys=True))
+    ctx.count('fileproc:%dx%d' % (procs, incs))
+    bad = [x for x in r['results'] if x[0] != 'ok']
+    if bad:
+        ctx.oracle_fail(case, 'file-backend worker process ended with %s' % bad, 'fileproc:worker_failed')
+    if not r['lock_free']:
+        ctx.oracle_fail(case, 'the session lock file is still locked after all processes ended',
+                        'fileproc:lock_not_released')
+    elif r['final'] != r['expected']:
+        ctx.oracle_fail(case, 'file backend across %d processes: final counter %r, %d increments were made '
+                              '(lost update)' % (procs, r['final'], r['expected']), 'fileproc:lost_update')
+
+
+# ------------------------------------------------------------------------------------------------
 def corpus_cases():
     d = os.path.join(common.CORPUS, PROPERTY)
     out = []
@@ -431,6 +457,8 @@ def run_one(ctx, case, variant, compare=True):
         check_req(ctx, [case], compare)
     elif kind == 'wsgi':
         check_wsgi(ctx, [case])
+    elif kind == 'fileproc':
+        check_file_processes(ctx, case['procs'], case['incs'], case['sweeps'])
     else:
         raise common.HarnessError('unknown case kind %r' % kind)
 
@@ -451,6 +479,9 @@ def run(ctx):
     check_req(ctx, [REQ.gen_plan(ctx.rng) for _ in range(ctx.budget(600, 20000))])
     check_wsgi(ctx, wsgi_systematic())
     check_wsgi(ctx, [WSGI.gen_case(ctx.rng) for _ in range(ctx.budget(150, 5000))])
+    check_file_processes(ctx, 2, ctx.budget(15, 200), ctx.budget(5, 60))
+    if not ctx.quick():
+        check_file_processes(ctx, 4, 100, 60)
 
 
 def search(ctx, around=None):
